@@ -74,6 +74,9 @@ pub struct Sink {
     /// the application has broken its contract in this history (released an id that an exchange still owns): from here
     /// on only the rules that hold whatever the application does are reported
     pub misused: bool,
+    /// the application has started a new handshake without reporting the old transport closed: the conservation rules of
+    /// the packet ids (nothing becomes free or in use without an announcement / a call) still hold, the rest is not judged
+    pub skipped_close: bool,
 }
 /// rules that do not depend on the application keeping its contract
 const UNCONDITIONAL: &[&str] = &["X1-no-panic", "X2-recv-makes-progress", "Z1-sent-size-within-peer-maximum", "Z3-oversize-inbound-not-delivered", "X6-partial-frame-yields-no-events", "X7-overlong-remaining-length-is-an-error", "X8-at-most-one-packet-per-call", "S10-sent-publish-or-pubrel-is-one-well-formed-frame"];
@@ -84,6 +87,10 @@ impl Sink {
     pub fn fail(&mut self, property: &'static str, rule: &'static str, attrs: String, what: String) {
         if self.misused && !UNCONDITIONAL.contains(&rule) {
             self.hit("not-judged-after-application-misuse");
+            return;
+        }
+        if self.skipped_close && !UNCONDITIONAL.contains(&rule) && !matches!(rule, "P3-release-announced-only-for-in-use-id" | "P4-in-use-set-equals-model") {
+            self.hit("not-judged-after-a-skipped-close");
             return;
         }
         self.found.push(Found { property, rule, attrs, what });
